@@ -744,8 +744,8 @@ impl RctSigPrunable {
                         }
                     }
                 } else if rct_type.is_rct_bp_plus() {
-                    let size: u8 = Decodable::consensus_decode(r)?;
-                    bulletproofplus = consensus_decode_sized_vec(r, size as usize)?;
+                    // the number of proofs is a varint in the reference (VARINT_FIELD(nbp))
+                    bulletproofplus = Decodable::consensus_decode(r)?;
                 } else {
                     range_sigs = consensus_decode_sized_vec(r, outputs)?;
                 }
@@ -835,9 +835,8 @@ impl RctSigPrunable {
                         }
                     }
                 } else if rct_type.is_rct_bp_plus() {
-                    let size: u8 = self.bulletproofplus.len() as u8;
-                    len += size.consensus_encode(w)?;
-                    len += encode_sized_vec!(self.bulletproofplus, w);
+                    // the number of proofs is a varint in the reference (VARINT_FIELD(nbp))
+                    len += self.bulletproofplus.consensus_encode(w)?;
                 } else {
                     len += encode_sized_vec!(self.range_sigs, w);
                 }
